@@ -68,12 +68,12 @@ def account(ctx, tpath):
 
 def run(ctx):
     if not ctx.quick():
-        ctx.mc("OutlierDetectionMC", "OutlierDetectionMCdeep.cfg", workers=8, timeout=1500)
+        ctx.mc("OutlierDetectionMC", "OutlierDetectionMCdeep.cfg", workers=8, timeout=1500)  # 6 events
     ctx.neg("OutlierDetectionMC", "OutlierDetectionNeg.cfg", expect="I_OnlyBelowMaxPercent", workers=4)
     binary = ctx.go_build("internal/xds/balancer/outlierdetection", name="c40", only=r"zz_verif_c40_")
     # the graph dump is an exhaustive model check of the generation scope (all invariants are in the cfg)
     g = ctx.dump_graph("OutlierDetectionMC", ctx.pick("OutlierDetectionGen4.cfg", "OutlierDetectionGen.cfg"), workers=ctx.pick(4, 8))
-    behs = ctx.edge_cover(g, step_of, limit=ctx.pick(1200, 8000))
+    behs = ctx.edge_cover(g, step_of, limit=ctx.pick(1200, 4000))
     bpath = os.path.join(ctx.run, "beh.ndjson")
     tpath = os.path.join(ctx.run, "trace-replay.ndjson")
     write_ndjson(bpath, behs)
@@ -84,7 +84,7 @@ def run(ctx):
     judge(ctx, ctx.validate("OutlierDetectionTrace", "OutlierDetectionTrace.cfg", tpath), tpath, "replay of TLC behaviours")
     account(ctx, tpath)
     tpath2 = os.path.join(ctx.run, "trace-random.ndjson")
-    n = ctx.pick(60, 1500)
+    n = ctx.pick(60, 500)
     ctx.driver(binary, "TestVerifC40Random", {"VERIF_OUT": tpath2, "VERIF_N": n})
     ctx.count({"random_runs": n, "seed": ctx.seed}, n=n)
     judge(ctx, ctx.validate("OutlierDetectionTrace", "OutlierDetectionTrace.cfg", tpath2, timeout=1800), tpath2,
